@@ -225,6 +225,27 @@ def check_mixed(g, case, cells):
                     f"{xy[i].tolist()} / {rc[i].tolist()}")
 
 
+def check_full_length(g, case):
+    """Vectors with exactly as many entries as the grid has cells (and one
+    more / one fewer) whose ends look like np.arange(ncells) but whose inner
+    part is in another order, repeated or invalid."""
+    n = case["nrows"] * case["ncols"]
+    if n < 3 or n > 4096:
+        return
+    base = list(range(n))
+    inner = base[1:-1]
+    vs = [[0] + inner[::-1] + [n - 1],
+          [0] + inner[1:] + inner[:1] + [n - 1],
+          [0] + [n] * len(inner) + [n - 1],
+          [0] + [-1 if i % 2 else c for i, c in enumerate(inner)] + [n - 1],
+          [0] + [inner[0]] * len(inner) + [n - 1],
+          base[::-1], [0] + base[:-2] + [n - 1],
+          [0] + inner[::-1] + [n - 1, n - 1], [0, 0] + inner[::-1] + [n - 1],
+          [0] + inner[::-1][:-1] + [n - 1]]
+    for v in vs:
+        check_mixed(g, case, v)
+
+
 def oracle(case):
     g = make_grid(case)
     nr, nc, csz = case["nrows"], case["ncols"], case["csz"]
@@ -235,6 +256,7 @@ def oracle(case):
     check_neighbours(g, case, case["cells"][:12])
     check_invalid(g, case)
     check_mixed(g, case, case.get("mixed", []))
+    check_full_length(g, case)
     if nr * nc <= 60:
         check_mixed(g, case, list(range(-3, nr * nc + 3)))
         check_mixed(g, case, list(range(nr * nc + 2, -4, -1)))
@@ -444,6 +466,7 @@ def enum_oracle(case):
     check_invalid(g, case)
     check_mixed(g, case, list(range(-3, n + 3)))
     check_mixed(g, case, [n - 1, -1, 0, 1, n, 0, -1, 1])
+    check_full_length(g, case)
     pts, exp = [], []
     for i in range(-8, 4 * nc + 9):
         for j in range(-8, 4 * nr + 9):
